@@ -25,21 +25,6 @@ the result), not a theorem.
 namespace QV.C14
 open QV QV.CircuitOps
 
-/-- laws `remove_identities` relies on: the classes it may cancel square to 1, barriers are 1 -/
-structure CancelLaws {M : Type} [Monoid M] (sem : Sem M) : Prop where
-  sq : ∀ c p w, selfInverse c = true → sem c p w * sem c p w = 1
-  barrier : ∀ p w, sem .Barrier p w = 1
-
-/-- one gate object has one class (true of every Python heap) -/
-def GidFun (c : Circ) : Prop := ∀ g ∈ c.gates, ∀ h ∈ c.gates, g.g.gid = h.g.gid → g.g.cls = h.g.cls
-
-instance (c : Circ) : Decidable (GidFun c) := by unfold GidFun; infer_instance
-
-/-- a write through any object of `r` is invisible in `c`, and vice versa -/
-def Independent (r c : Circ) : Prop :=
-  (∀ o ∈ r.objs, o ∉ c.objs) ∧ (∀ w : Write, w.target ∈ r.objs → c.apply w = c) ∧
-    (∀ w : Write, w.target ∈ c.objs → r.apply w = r)
-
 /-- `append_circuit`: action = self, then the other circuit's gates on the given qubits; `self`
 keeps its list objects; every other mutable object of the result is newly allocated -/
 def AppendSpec : Prop := ∀ (a b : Circ) (qs : List Nat) (nx : Nat) (r : Circ) (nx' : Nat),
@@ -85,11 +70,6 @@ def C14_statement : Prop :=
 
 /-! ## theorems -/
 
-theorem independent_of_fresh {r c : Circ} {nx : Nat} (hc : c.below nx) (hr : r.objsFrom nx) :
-    Independent r c := by
-  have hd := objsFrom_disjoint hc hr
-  refine ⟨hd, fun w hw => apply_frame w c (hd _ hw), fun w hw => apply_frame w r (fun h => hd _ h hw)⟩
-
 theorem appendCircuit_spec : AppendSpec := by
   intro a b qs nx r nx' h
   refine ⟨fun _ _ sem => appendCircuit_act' sem h, ?_, ?_, ?_⟩
@@ -113,7 +93,7 @@ theorem iadd_act {M : Type} [Monoid M] (sem : Sem M) (a b : Circ) (nx : Nat) (r 
 
 theorem add_spec : AddSpec := by
   intro a b nx r nx' h
-  refine ⟨fun M _ sem => add_act' sem h, fun ha hb => ?_⟩
+  refine ⟨fun _ _ sem => add_act' sem h, fun ha hb => ?_⟩
   exact ⟨independent_of_fresh ha (add_objsFrom h), independent_of_fresh hb (add_objsFrom h)⟩
 
 /-- `+` and `+=` go through whenever the right operand is not wider and its gates stay on its
@@ -125,14 +105,14 @@ theorem add_defined (a b : Circ) (nx : Nat) (hn : b.numQubits ≤ a.numQubits) (
 
 theorem repeat_spec_full : RepeatSpec Quirks.none := by
   intro c n nx r nx' h
-  exact ⟨fun M _ sem => repeat_act' sem _ c n nx r nx' (Or.inr rfl) h,
+  exact ⟨fun _ _ sem => repeat_act' sem _ c n nx r nx' (Or.inr rfl) h,
     fun hc => independent_of_fresh hc (repeat_objsFrom h)⟩
 
 /-- the code as it is: n-fold composition for every `n ≥ 1` -/
 theorem repeat_spec_partial (q : Quirks) (c : Circ) (n nx : Nat) (r : Circ) (nx' : Nat) (hn : n ≠ 0)
     (h : «repeat» q c n nx = .ok (r, nx')) :
     (∀ (M : Type) [Monoid M] (sem : Sem M), act sem r = act sem c ^ n) ∧ (c.below nx → Independent r c) :=
-  ⟨fun M _ sem => repeat_act' sem q c n nx r nx' (Or.inl hn) h,
+  ⟨fun _ _ sem => repeat_act' sem q c n nx r nx' (Or.inl hn) h,
     fun hc => independent_of_fresh hc (repeat_objsFrom h)⟩
 
 theorem copy_spec : CopySpec := by
@@ -188,13 +168,6 @@ def sGate (gid : Nat) : HGate := { g := { cls := .S, wires := [0], gid := gid },
 def hGate1 : HGate := { g := { cls := .H, wires := [1], gid := 7 }, wid := 8 }
 def circOf (n : Nat) (gs : List HGate) : Circ :=
   { numQubits := n, gates := gs, computed := gs, gatesId := 20, computedId := 21, qmapId := 22 }
-
-/-- counts the gates / the S gates: two honest monoid-valued semantics -/
-def countAll : Sem (Multiplicative Nat) := fun _ _ _ => Multiplicative.ofAdd 1
-def countS : Sem (Multiplicative Nat) := fun c _ _ => if c = .S then Multiplicative.ofAdd 1 else 1
-
-theorem countS_laws : CancelLaws countS :=
-  ⟨fun c p w h => by cases c <;> simp_all [countS, selfInverse], fun _ _ => rfl⟩
 
 /-- `repeat(0)` of the code is one copy: not the 0-fold composition -/
 theorem repeat_zero_witness : ¬ RepeatSpec { repeatZero := true } := by
